@@ -41,7 +41,7 @@ func profileFor0(name string) *Profile {
 	case "C01":
 		p.ModeBEvery, p.InjectP = 4, 0.3
 		p.ClassW["nearmiss"], p.ClassW["canon"] = 8, 70
-		p.W["dust"], p.W["envadmin"] = 8, 5
+		p.W["dust"], p.W["envadmin"], p.W["byz"] = 8, 5, 8
 	case "C02":
 		p.ModeBEvery, p.InjectP = 4, 0.3
 		p.ScaleW = []int{4, 2, 3, 3}
